@@ -1,6 +1,7 @@
 package main
 
 import (
+	"sync/atomic"
 	"net/url"
 	"fmt"
 	"math/rand/v2"
@@ -23,6 +24,7 @@ func init() {
 		Parts: []Part{
 			{Name: "gen", Fn: c19Gen},
 			{Name: "sockets", Fn: c19Sockets},
+			{Name: "conc", Race: true, Fn: c19Conc},
 		},
 	})
 }
@@ -332,4 +334,69 @@ func c19Sockets(c *Ctx) {
 		}
 	}
 	c.Require("socket_requests", 2)
+}
+
+// c19Conc: one extractor object serves all requests of a limiter, concurrently: every peer must get its own address,
+// every header its own value, whatever else is being extracted at the same moment (race build).
+func c19Conc(c *Ctx) {
+	c.Cases("conc", c.N(20, 300), func(i int, r *rand.Rand) {
+		ipx, err1 := utils.NewExtractor("client.ip")
+		hx, err2 := utils.NewExtractor("request.header.X-Api-Key")
+		hostx, err3 := utils.NewExtractor("request.host")
+		if err1 != nil || err2 != nil || err3 != nil {
+			c.Violation("vars/refused", sfmt("constructors failed: %v %v %v", err1, err2, err3), nil)
+			return
+		}
+		const G = 8
+		peers := make([]c19Addr, G)
+		for g := range peers {
+			for {
+				peers[g] = genAddr(r)
+				if peers[g].well {
+					break
+				}
+			}
+		}
+		per := c.N(20000, 200000)
+		var bad atomic.Int64
+		var first sync.Map
+		var wg sync.WaitGroup
+		var start atomic.Bool
+		for g := 0; g < G; g++ {
+			wg.Add(1)
+			go func(g int) {
+				defer wg.Done()
+				key := sfmt("key-of-client-%d", g)
+				host := sfmt("tenant%d.example.com", g)
+				req := &http.Request{RemoteAddr: peers[g].addr, Host: host, Header: http.Header{"X-Api-Key": {key}}}
+				for !start.Load() {
+				}
+				for k := 0; k < per; k++ {
+					if tok, amt, err := ipx.Extract(req); err != nil || tok != peers[g].host || amt != 1 {
+						bad.Add(1)
+						first.LoadOrStore("client.ip", sfmt("peer %q got token %q amount %d err %v", peers[g].addr, tok, amt, err))
+					}
+					if tok, amt, err := hx.Extract(req); err != nil || tok != key || amt != 1 {
+						bad.Add(1)
+						first.LoadOrStore("request.header", sfmt("header value %q gave token %q amount %d err %v", key, tok, amt, err))
+					}
+					if tok, amt, err := hostx.Extract(req); err != nil || tok != host || amt != 1 {
+						bad.Add(1)
+						first.LoadOrStore("request.host", sfmt("host %q gave token %q amount %d err %v", host, tok, amt, err))
+					}
+				}
+			}(g)
+		}
+		start.Store(true)
+		wg.Wait()
+		c.Eval()
+		c.Count("concurrent_extractions", int64(3*G*per))
+		if n := bad.Load(); n > 0 {
+			var ex []string
+			first.Range(func(k, v any) bool { ex = append(ex, sfmt("%v: %v", k, v)); return true })
+			c.Violation("conc/wrong-token", sfmt("%d of %d extractions made concurrently for %d different peers returned another request's token, e.g. %v", n, 3*G*per, G, ex), nil)
+			return
+		}
+		c.Nontrivial(sfmt("conc/%d/%v", i, peers[0].addr))
+	})
 }
